@@ -30,6 +30,9 @@ IGN5 = ['venv', '.venv', '.tox', '.mypy_cache', '__pycache__']
 NEAR = ['venv2', 'myvenv', '.toxic', 'pycache', '.venvs', 'VENV', '.mypy', 'env', 'tox']
 POOL = ['zeta', 'zet', 'qux']
 POOL_T = ['zeta', 'zet', 'qux', 'z\u00e9t']
+POOL_U = ['\u00e9la', 'caf\u00e9', '\u03b1lf']      # non-ASCII first letter, last letter, Greek first
+POOL_L1 = ['\u00e9la', 'na\u00efve_caf\u00e9']          # representable in latin-1
+LATIN1_HEAD = '# -*- coding: latin-1 -*-\n'
 PARSE_LIMIT = 30          # jedi/inference/references.py:_PARSED_FILE_LIMIT (documented there)
 
 # kind -> (template, top-level?, Name.type).  <X> marks the defining occurrence.
@@ -101,10 +104,13 @@ class Tree:
     def __init__(self, tid, **kw):
         self.spec = dict(id=tid, files={}, defs={}, **kw)
 
-    def add(self, rel, snips):
+    def add(self, rel, snips, head='', encoding=None):
         text, defs = _render(snips)
-        self.spec['files'][rel] = text
-        self.spec['defs'][rel] = defs
+        shift = head.count('\n')
+        self.spec['files'][rel] = head + text
+        self.spec['defs'][rel] = [dict(d, line=d['line'] + shift) for d in defs]
+        if encoding:
+            self.spec.setdefault('enc', {})[rel] = encoding
         return self
 
     def raw(self, rel, text):
@@ -291,6 +297,31 @@ def _families(tier):
                 _place_targets(t, base, t1 + [x for x in t2 if x not in t1], idents)
             trees.append(t.spec)
     fams.append(('G2 two gitignore files', trees))
+
+    # U: identifiers that start / end with a non-ASCII letter, and a latin-1 encoded source file
+    trees = []
+    t = Tree('U:utf8', qset='full', idents=POOL_U)
+    t.skeleton(SKEL7, POOL_U)
+    t.hidden('venv/hid.py', POOL_U)
+    t.hidden('ns/lib/vis.py', POOL_U, 1)
+    t.add('pkg/%s.py' % POOL_U[0], [('assign', 'hq')])
+    trees.append(t.spec)
+    for li, loc in enumerate(['', 'pkg', 'ns']):
+        for wrap in ('', 'venv'):
+            t = Tree('U:latin1@%s/%s' % (loc or '.', wrap or 'visible'), qset='full', idents=POOL_L1)
+            t.skeleton(SKEL5, POOL_L1, rich=False)
+            snips = [(k, POOL_L1[(j + li) % 2]) for j, k in enumerate(['def', 'method', 'class', 'local'])]
+            t.add(_j(loc, wrap, 'lat.py'), snips, head=LATIN1_HEAD, encoding='latin-1')
+            t.add(_j(loc, 'utf.py'), [('assign', POOL_L1[li % 2]), ('cattr', POOL_L1[(li + 1) % 2])])
+            trees.append(t.spec)
+    for ki, kind in enumerate(DEFK + NOISEK):
+        x = POOL_U[ki % len(POOL_U)]
+        t = Tree('U:D:%s:%s' % (kind, x), qset='lite', orders=['asc'], idents=[x])
+        t.skeleton(SKEL2, POOL_U, rich=False)
+        t.add(SKEL7[ki % 7] if SKEL7[ki % 7] not in SKEL2 else 'pkg/mod.py',
+              [('assign', 'hq'), (kind, x), ('n_use', 'hq')])
+        trees.append(t.spec)
+    fams.append(('U non-ASCII identifiers (first/last letter), latin-1 source file', trees))
 
     # Z (thorough): everything at once, trees of up to 30 files
     if not quick:
@@ -574,11 +605,11 @@ def _check(q, res, root, vis, mods, why):
     return fails, len(exp)
 
 
-def _write_tree(root, files):
+def _write_tree(root, files, enc=None):
     for rel, text in files.items():
         p = os.path.join(root, *rel.split('/'))
         os.makedirs(os.path.dirname(p), exist_ok=True)
-        with open(p, 'w', encoding='utf-8', newline='') as f:
+        with open(p, 'w', encoding=(enc or {}).get(rel, 'utf-8'), newline='') as f:
             f.write(text)
 
 
@@ -606,7 +637,7 @@ def _explore_tree(spec, idents, only=None):
     root = os.path.join(base, 'r')
     out = {'fails': [], 'q': 0, 'states': 0, 'req': 0, 'forb': 0, 'classes': set(), 'hits': {}}
     try:
-        _write_tree(root, spec['files'])
+        _write_tree(root, spec['files'], spec.get('enc'))
         vis, ign, mods, why = _inventory(spec)
         queries = _queries(spec, idents, vis)
         for w in set(why.values()):
@@ -789,13 +820,17 @@ def run(ctx):
         for s in specs:
             for rel, text in s.get('files', {}).items():
                 if rel.endswith('.py'):
-                    texts.setdefault(hashlib.sha1(text.encode()).hexdigest(), text)
-    tlist = [texts[k] for k in sorted(texts)]
+                    key = (tuple(s.get('idents', idents)), hashlib.sha1(text.encode()).hexdigest())
+                    texts.setdefault(key, text)
     chunk = 8
-    levels = [(name, [{'spec': s, 'idents': idents} for s in specs]) for name, specs in fams]
-    levels.append(('B Script.search == filter(get_names) on every distinct generated text',
-                   [{'texts': tlist[i:i + chunk], 'idents': idents, 'first': i}
-                    for i in range(0, len(tlist), chunk)]))
+    levels = [(name, [{'spec': s, 'idents': s.get('idents', idents)} for s in specs])
+              for name, specs in fams]
+    btasks = []
+    for ids in sorted({k[0] for k in texts}):
+        tlist = [texts[k] for k in sorted(texts) if k[0] == ids]
+        btasks += [{'texts': tlist[i:i + chunk], 'idents': list(ids), 'first': len(btasks) * chunk}
+                   for i in range(0, len(tlist), chunk)]
+    levels.append(('B Script.search == filter(get_names) on every distinct generated text', btasks))
     dev = os.environ.get('JV_C19_FAMS')          # development aid only: run a subset of families
     if dev:
         levels = [lv for lv in levels if lv[0].split()[0] in dev.split(',')]
